@@ -64,6 +64,16 @@ func parseGetValue(out string) map[string]string {
 
 func normValue(v string) string {
 	v = strings.Join(strings.Fields(v), " ")
+	// rationals: (/ a b) and (- (/ a b)) become Go float expressions
+	if strings.HasPrefix(v, "(- (/ ") && strings.HasSuffix(v, "))") {
+		return "-(" + normValue(v[3:len(v)-1]) + ")"
+	}
+	if strings.HasPrefix(v, "(/ ") && strings.HasSuffix(v, ")") {
+		f := strings.Fields(v[3 : len(v)-1])
+		if len(f) == 2 {
+			return f[0] + "/" + f[1]
+		}
+	}
 	if strings.HasPrefix(v, "(- ") && strings.HasSuffix(v, ")") {
 		inner := strings.TrimSuffix(strings.TrimPrefix(v, "(- "), ")")
 		if !strings.ContainsAny(inner, " (") {
